@@ -48,6 +48,8 @@ TRANSLATION TABLE (Python → Lean)
   raise X(...)                          .error Py.Err.<X>   result type `Except Py.Err τ`; with effects / state the result
                                         is (value-or-error, effects, state…): what was done before a raise stays done
   registry effect `obj.meth(a, b)`      let effects_ := effects_ ++ [(a, b)]; `effects_` starts as [] and is returned (after the value)
+  registry snapshot `self.f(*args, **kwargs)` with the function's own varargs: let effects_ := effects_ ++ [current value of the
+                                        named state attrs] (what the callee sees); registry ignore_calls (logging): dropped
   registry state attr `self._x`         a local initialised from `self._x`, returned after the value / effects;
                                         a dict-typed one is an association list, newest binding first:
   self._x.get(k, None) / self._x[k] = v (List.lookup k x) : Option / let x := (k, v) :: x
@@ -110,6 +112,9 @@ class Fn:
     keyed: tuple = ()              # dotted names of dicts whose values are named by their key: `self._cells[k]` → k
     state: dict = field(default_factory=dict)     # "self._cache" -> type: attributes the function mutates
     effect_params: dict = field(default_factory=dict)   # "self.m" -> parameter names, so that an effect call may use keywords
+    snapshot: dict = field(default_factory=dict)  # "self._user_step" -> state attrs: the call `f(*args, **kwargs)` with the function's
+    #                                               own varargs passed through is the effect (current values of those attrs)
+    ignore_calls: tuple = ()       # call statements that are dropped (logging); their arguments must not contain calls
     fuel: bool = False             # `while` loops allowed: the definition gets a `fuel : Nat` parameter
     order: str | None = None       # Lean name of the translated `__lt__` that heappush / heappop compare with
     props: dict = field(default_factory=dict)     # attribute that is a @property -> python name of its translated getter
@@ -480,7 +485,8 @@ class Translator:
                 elif isinstance(s, (ast.AugAssign, ast.AnnAssign)):
                     tgt(s.target)
                 elif isinstance(s, ast.Expr) and isinstance(s.value, ast.Call) and isinstance(s.value.func, ast.Attribute):
-                    d = OUT if _dotted(s.value.func) in self.fn.effects else _dotted(s.value.func.value)
+                    d = OUT if (_dotted(s.value.func) in self.fn.effects or _dotted(s.value.func) in self.fn.snapshot) \
+                        else _dotted(s.value.func.value)
                     if d and d not in out:
                         out.append(d)           # xs.append(..): xs is (re)assigned
                 elif isinstance(s, ast.Expr) and isinstance(s.value, ast.Call) and s.value.args and \
@@ -625,6 +631,9 @@ class Translator:
                 if ti == "Int":
                     return self.let(self.v(x), f"{self.v(x)}.set {i}.toNat {val}") + k(env)
             self.bad(s, "subscript assignment outside the subset")
+        if isinstance(tg, ast.Attribute) and _dotted(tg) in env and _dotted(tg) in self.fn.state:
+            t, ty = self.expr(s.value, env)
+            return self.let(self.v(_dotted(tg)), t, ty, annotate=True) + k(env)
         if isinstance(s.value, ast.Dict) and not s.value.keys and isinstance(tg, ast.Name):
             env[tg.id] = ("L", None)          # dict used as an insertion-ordered set of keys; element type from first insert
             env["#set:" + tg.id] = True
@@ -667,6 +676,20 @@ class Translator:
         if f in ("heappush", "heapq.heappush") and len(c.args) == 2 and not c.keywords and _dotted(c.args[0]) in env and self.fn.order:
             h = _dotted(c.args[0])
             return self.let(self.v(h), f"Mesa.Heap.heappush {self.fn.order} {self.v(h)} {self.expr(c.args[1], env)[0]}") + k(env)
+        if f in self.fn.ignore_calls:
+            if any(isinstance(n, (ast.Call, ast.NamedExpr, ast.Await, ast.Yield)) for a in [*c.args, *[k.value for k in c.keywords]]
+                   for n in ast.walk(a)):
+                self.bad(c, f"ignored call `{f}` with a call inside its arguments")
+            return k(env)
+        if f in self.fn.snapshot:
+            va, kw = self.passthrough
+            ok = [a.value.id for a in c.args if isinstance(a, ast.Starred) and isinstance(a.value, ast.Name)] == ([va] if va else []) \
+                and len(c.args) == (1 if va else 0) \
+                and [(k.arg, getattr(k.value, "id", None)) for k in c.keywords] == ([(None, kw)] if kw else [])
+            if not ok:
+                self.bad(c, f"`{f}` must be called with exactly the function's own *args / **kwargs")
+            vals = [self.v(x) for x in self.fn.snapshot[f]]
+            return self.let(OUT, f"{OUT} ++ [{vals[0] if len(vals) == 1 else '(' + ', '.join(vals) + ')'}]") + k(env)
         if f in self.fn.effects:
             args = list(c.args)
             names = self.fn.effect_params.get(f)
@@ -825,8 +848,9 @@ class Translator:
     def translate(self, node: ast.FunctionDef):
         fn = self.fn
         a = node.args
-        if a.vararg or a.kwarg or a.kwonlyargs or a.posonlyargs:
+        if a.kwonlyargs or a.posonlyargs or ((a.vararg or a.kwarg) and not fn.snapshot):
             self.bad(node, "*args / **kwargs / keyword-only parameters")
+        self.passthrough = (a.vararg.arg if a.vararg else None, a.kwarg.arg if a.kwarg else None)
         names = [x.arg for x in a.args]
         env, binders = {}, []
         if names and names[0] == "self":
@@ -853,8 +877,12 @@ class Translator:
                               ast.Delete, ast.Import, ast.ImportFrom, ast.Assert)):
                 self.bad(n, f"{type(n).__name__} outside the subset")
         lines = []
-        if fn.effects:
-            ety = next(iter(fn.effects.values()))
+        if fn.effects or fn.snapshot:
+            if fn.effects:
+                ety = next(iter(fn.effects.values()))
+            else:
+                tys = [fn.state[x] for x in next(iter(fn.snapshot.values()))]
+                ety = tys[0] if len(tys) == 1 else ("T", *tys)
             if any(isinstance(n, ast.Name) and n.id == OUT for n in ast.walk(node)):
                 self.bad(node, f"a local named {OUT}")
             self.outs = [OUT]
